@@ -1,6 +1,451 @@
 // Contract harnesses for ntp-proto/src/packet/v5/mod.rs (child module: sees private items).
-#![allow(unused_imports)]
+// Properties: C18 (NTPv5 header builders), C23/C22 (NtpHeaderV5::deserialize is total),
+// C24 (NTPv5 header round trip).
+#![allow(unused_imports, dead_code)]
 use super::*;
+use crate::packet::verif::{
+    any_dur, any_efdata, any_leap, any_mac, any_server_info, any_ts, pick_server_cookie, rd_value, server_cookie_stub, root_dispersion_uf, spec_uid_echo,
+    spec_v5_time_fields, with_draft, VClock, EF,
+};
+use crate::packet::{NtpHeader, NtpPacket};
+use std::borrow::Cow;
+use std::sync::atomic::{AtomicU64, Ordering::Relaxed};
+
+// ---------------------------------------------------------------- generators
+
+pub(crate) fn any_mode5() -> NtpMode {
+    if kani::any() {
+        NtpMode::Request
+    } else {
+        NtpMode::Response
+    }
+}
+pub(crate) fn any_timescale() -> NtpTimescale {
+    match kani::any::<u8>() {
+        0 => NtpTimescale::Utc,
+        1 => NtpTimescale::Tai,
+        2 => NtpTimescale::Ut1,
+        _ => NtpTimescale::LeapSmearedUtc,
+    }
+}
+/// every value of the NTPv5 header type
+pub(crate) fn any_header_v5() -> NtpHeaderV5 {
+    NtpHeaderV5 {
+        leap: any_leap(),
+        mode: any_mode5(),
+        stratum: kani::any(),
+        poll: PollInterval::from_byte(kani::any()),
+        precision: kani::any(),
+        timescale: any_timescale(),
+        era: NtpEra(kani::any()),
+        flags: NtpFlags { synchronized: kani::any(), interleaved_mode: kani::any(), authnak: kani::any() },
+        root_delay: any_dur(),
+        root_dispersion: any_dur(),
+        server_cookie: NtpServerCookie(kani::any()),
+        client_cookie: NtpClientCookie(kani::any()),
+        receive_timestamp: any_ts(),
+        transmit_timestamp: any_ts(),
+    }
+}
+
+pub(crate) fn client_cookie_stub() -> NtpClientCookie {
+    NtpClientCookie(kani::any())
+}
+
+fn flags_are(f: NtpFlags, synchronized: bool, authnak: bool) -> bool {
+    f.synchronized == synchronized && !f.interleaved_mode && f.authnak == authnak
+}
+
+// ================================================================ C18: NTPv5 header builders
+
+/// post<=statement: response mode; client cookie and poll echoed; receive == reception time;
+/// transmit == clock reading; stratum / leap / root delay / precision from the server snapshot;
+/// `synchronized` flag <=> stratum < 16; nothing else of the request is reflected.
+#[kani::proof]
+#[kani::stub(crate::packet::v5::NtpServerCookie::new_random, server_cookie_stub)]
+#[kani::stub(crate::system::TimeSnapshot::root_dispersion, root_dispersion_uf)]
+fn c18_p_v5_header_timestamp_response() {
+    let info = any_server_info(false);
+    let req = any_header_v5();
+    let recv = any_ts();
+    let clock = VClock(any_ts());
+    let sc = pick_server_cookie();
+    let rd = rd_value();
+    let r = NtpHeaderV5::timestamp_response(&info, req, recv, &clock);
+    assert!(r.mode == NtpMode::Response);
+    assert!(r.client_cookie == req.client_cookie);
+    assert!(r.poll == req.poll);
+    assert!(r.receive_timestamp == recv);
+    assert!(r.transmit_timestamp == clock.0);
+    assert!(r.stratum == info.ntp_snapshot.stratum);
+    assert!(r.leap == info.time_snapshot.leap_indicator);
+    assert!(r.root_delay == info.time_snapshot.root_delay);
+    assert!(r.root_dispersion == rd);
+    assert!(r.precision == info.time_snapshot.precision.log2());
+    assert!(flags_are(r.flags, info.ntp_snapshot.stratum < 16, false));
+    assert!(r.timescale == NtpTimescale::Utc && r.era == NtpEra(0));
+    assert!(r.server_cookie == sc);
+    // non-reflection
+    let mut req2 = any_header_v5();
+    req2.client_cookie = req.client_cookie;
+    req2.poll = req.poll;
+    let r2 = NtpHeaderV5::timestamp_response(&info, req2, recv, &clock);
+    assert!(r2 == r);
+    kani::cover!(req.mode == NtpMode::Response && r.stratum == 16, "reachable");
+}
+
+fn check_kiss_v5(r: NtpHeaderV5, req: NtpHeaderV5, sc: NtpServerCookie) {
+    assert!(r.mode == NtpMode::Response);
+    assert!(r.client_cookie == req.client_cookie);
+    assert!(r.stratum == 0);
+    // no server timestamps
+    assert!(r.receive_timestamp == NtpTimestamp::from_bits([0; 8]));
+    assert!(r.transmit_timestamp == NtpTimestamp::from_bits([0; 8]));
+    assert!(r.server_cookie == sc);
+    // nothing of the server's state, nothing else of the request
+    assert!(r.root_delay == NtpDuration::from_bits([0; 8]));
+    assert!(r.root_dispersion == NtpDuration::from_bits([0; 8]));
+    assert!(r.precision == 0 && r.leap == NtpLeapIndicator::NoWarning);
+    assert!(r.timescale == NtpTimescale::Utc && r.era == NtpEra(0));
+}
+
+/// RATE: kiss shape + poll is the request's poll plus one (saturating): NTPv5 signals the
+/// rate limit through a larger poll value.
+#[kani::proof]
+#[kani::stub(crate::packet::v5::NtpServerCookie::new_random, server_cookie_stub)]
+fn c18_p_v5_header_rate_limit_response() {
+    let req = any_header_v5();
+    let sc = pick_server_cookie();
+    let r = NtpHeaderV5::rate_limit_response(req);
+    check_kiss_v5(r, req, sc);
+    assert!(flags_are(r.flags, false, false));
+    assert!(r.poll.as_log() as i16 == core::cmp::min(req.poll.as_log() as i16 + 1, 127));
+    let mut req2 = any_header_v5();
+    req2.client_cookie = req.client_cookie;
+    req2.poll = req.poll;
+    assert!(NtpHeaderV5::rate_limit_response(req2) == r);
+    kani::cover!(req.poll == PollInterval::NEVER, "saturating case reachable");
+}
+
+/// DENY: kiss shape + poll == NEVER (the NTPv5 encoding of DENY).
+#[kani::proof]
+#[kani::stub(crate::packet::v5::NtpServerCookie::new_random, server_cookie_stub)]
+fn c18_p_v5_header_deny_response() {
+    let req = any_header_v5();
+    let sc = pick_server_cookie();
+    let r = NtpHeaderV5::deny_response(req);
+    check_kiss_v5(r, req, sc);
+    assert!(flags_are(r.flags, false, false));
+    assert!(r.poll == PollInterval::NEVER);
+    let mut req2 = any_header_v5();
+    req2.client_cookie = req.client_cookie;
+    assert!(NtpHeaderV5::deny_response(req2) == r);
+    kani::cover!(req.stratum != 0, "reachable");
+}
+
+/// NTS-NAK: kiss shape + authnak flag.
+#[kani::proof]
+#[kani::stub(crate::packet::v5::NtpServerCookie::new_random, server_cookie_stub)]
+fn c18_p_v5_header_nts_nak_response() {
+    let req = any_header_v5();
+    let sc = pick_server_cookie();
+    let r = NtpHeaderV5::nts_nak_response(req);
+    check_kiss_v5(r, req, sc);
+    assert!(flags_are(r.flags, false, true));
+    let mut req2 = any_header_v5();
+    req2.client_cookie = req.client_cookie;
+    assert!(NtpHeaderV5::nts_nak_response(req2) == r);
+    kani::cover!(req.flags.authnak == false, "reachable");
+}
+
+/// canary: a time answer does NOT echo the request's server cookie (false claim: it does).
+#[kani::proof]
+#[kani::stub(crate::packet::v5::NtpServerCookie::new_random, server_cookie_stub)]
+#[kani::stub(crate::system::TimeSnapshot::root_dispersion, root_dispersion_uf)]
+fn c18_canary_v5_header_reflects_server_cookie() {
+    let info = any_server_info(false);
+    let req = any_header_v5();
+    let _ = pick_server_cookie();
+    let r = NtpHeaderV5::timestamp_response(&info, req, any_ts(), &VClock(any_ts()));
+    assert!(r.server_cookie == req.server_cookie);
+}
+
+// ================================================================ C18: NTPv5 packet-level builders
+// (bounded: each request field list <= 2 fields, payloads <= 4 bytes)
+
+/// NTPv5, shaped request (see packet::verif::shaped_efdata): time answer = unique identifiers
+/// of the unauthenticated and authenticated parts + the answered reference-id window (4 bytes at
+/// offset 8 of the server's filter) + one draft identification, in request order; KISS answers =
+/// the unique identifiers + draft identification; nothing else.
+#[kani::proof]
+#[kani::unwind(26)]
+#[kani::stub(crate::system::TimeSnapshot::root_dispersion, root_dispersion_uf)]
+#[kani::stub(crate::packet::v5::NtpServerCookie::new_random, server_cookie_stub)]
+fn c18_tb_v5_packet_shaped_request() {
+    let b: [[u8; 4]; 6] = kani::any();
+    let t: u16 = kani::any();
+    let header = any_header_v5();
+    let mk = || NtpPacket { header: NtpHeader::V5(header), efdata: crate::packet::verif::shaped_efdata(&b, t), mac: None };
+    let uid_u = EF::UniqueIdentifier(Cow::Borrowed(&b[0][..]));
+    let uid_a = EF::UniqueIdentifier(Cow::Borrowed(&b[3][..]));
+    let draft = EF::DraftIdentification(Cow::Borrowed(DRAFT_VERSION));
+    let info = any_server_info(true);
+    let filter = info.ntp_snapshot.bloom_filter;
+    let (recv, clock, _rd) = (any_ts(), VClock(any_ts()), rd_value());
+    let _ = pick_server_cookie();
+    let r = NtpPacket::timestamp_response(info, mk(), recv, &clock);
+    assert!(r.header == NtpHeader::V5(NtpHeaderV5::timestamp_response(&info, header, recv, &clock)) && r.mac.is_none());
+    assert!(r.efdata.authenticated.is_empty() && r.efdata.encrypted.is_empty());
+    assert!(r.efdata.untrusted.len() == 4);
+    assert!(r.efdata.untrusted[0] == uid_u && r.efdata.untrusted[2] == uid_a && r.efdata.untrusted[3] == draft);
+    assert!(matches!(&r.efdata.untrusted[1], EF::ReferenceIdResponse(x) if x.bytes() == &filter.as_bytes()[8..12]));
+    let r = NtpPacket::deny_response(mk());
+    assert!(r.header == NtpHeader::V5(NtpHeaderV5::deny_response(header)) && r.mac.is_none());
+    assert!(r.efdata.authenticated.is_empty() && r.efdata.encrypted.is_empty());
+    assert!(r.efdata.untrusted.len() == 3 && r.efdata.untrusted[0] == uid_u && r.efdata.untrusted[1] == uid_a && r.efdata.untrusted[2] == draft);
+    let r = NtpPacket::nts_nak_response(mk());
+    assert!(r.header == NtpHeader::V5(NtpHeaderV5::nts_nak_response(header)));
+    assert!(r.efdata.untrusted.len() == 3 && r.efdata.untrusted[0] == uid_u && r.efdata.untrusted[1] == uid_a && r.efdata.untrusted[2] == draft);
+    kani::cover!(header.mode == NtpMode::Request, "reachable");
+}
+
+/// NTPv5 time answer: version 5; header per the header contract; fields == spec_v5_time_fields
+/// (all unauthenticated); nothing from `encrypted`; no MAC.
+#[kani::proof]
+#[kani::unwind(26)]
+#[kani::stub(crate::system::TimeSnapshot::root_dispersion, root_dispersion_uf)]
+#[kani::stub(crate::packet::v5::NtpServerCookie::new_random, server_cookie_stub)]
+fn c18_tb_v5_packet_timestamp_response() {
+    let bufs: [[u8; 4]; 6] = kani::any();
+    let macbuf: [u8; 4] = kani::any();
+    let header = any_header_v5();
+    let input = NtpPacket { header: NtpHeader::V5(header), efdata: any_efdata(&bufs), mac: any_mac(&macbuf) };
+    let info = any_server_info(true);
+    let filter = info.ntp_snapshot.bloom_filter;
+    let expect = spec_v5_time_fields(&input.efdata.untrusted, &input.efdata.authenticated, &filter);
+    let (recv, clock, _rd) = (any_ts(), VClock(any_ts()), rd_value());
+    let _ = pick_server_cookie();
+    let r = NtpPacket::timestamp_response(info, input, recv, &clock);
+    assert!(r.header == NtpHeader::V5(NtpHeaderV5::timestamp_response(&info, header, recv, &clock)));
+    assert!(r.mac.is_none());
+    assert!(r.efdata.authenticated.is_empty() && r.efdata.encrypted.is_empty());
+    assert!(r.efdata.untrusted == expect);
+    kani::cover!(r.efdata.untrusted.len() == 5, "four answered fields + draft id reachable");
+    kani::cover!(matches!(r.efdata.untrusted.first(), Some(EF::ReferenceIdResponse(x)) if x.bytes().len() == 3), "odd reference-id window answered");
+}
+
+/// NTPv5 DENY / RATE / NTS-NAK (+ NTS variants): KISS header per the header contract; unique
+/// identifiers echoed + one draft identification; nothing else.
+#[kani::proof]
+#[kani::unwind(26)]
+#[kani::stub(crate::packet::v5::NtpServerCookie::new_random, server_cookie_stub)]
+fn c18_tb_v5_packet_kiss_responses() {
+    let bufs: [[u8; 4]; 6] = kani::any();
+    let macbuf: [u8; 4] = kani::any();
+    let header = any_header_v5();
+    let input = NtpPacket { header: NtpHeader::V5(header), efdata: any_efdata(&bufs), mac: any_mac(&macbuf) };
+    let expect = with_draft(spec_uid_echo(&input.efdata.untrusted, &input.efdata.authenticated));
+    let expect_auth = with_draft(spec_uid_echo(&[], &input.efdata.authenticated));
+    let _ = pick_server_cookie();
+    let which: u8 = kani::any();
+    kani::assume(which < 5);
+    let (r, h, nts) = match which {
+        0 => (NtpPacket::deny_response(input), NtpHeaderV5::deny_response(header), false),
+        1 => (NtpPacket::rate_limit_response(input), NtpHeaderV5::rate_limit_response(header), false),
+        2 => (NtpPacket::nts_nak_response(input), NtpHeaderV5::nts_nak_response(header), false),
+        3 => (NtpPacket::nts_deny_response(input), NtpHeaderV5::deny_response(header), true),
+        _ => (NtpPacket::nts_rate_limit_response(input), NtpHeaderV5::rate_limit_response(header), true),
+    };
+    assert!(r.header == NtpHeader::V5(h));
+    assert!(r.mac.is_none() && r.efdata.encrypted.is_empty());
+    if nts {
+        assert!(r.efdata.untrusted.is_empty() && r.efdata.authenticated == expect_auth);
+    } else {
+        assert!(r.efdata.authenticated.is_empty() && r.efdata.untrusted == expect);
+    }
+    kani::cover!(which == 1 && r.efdata.untrusted.len() == 4, "reachable");
+}
+
+// ================================================================ C17: NTPv5 request-sized buffer
+
+/// a field as the NTPv5 decoder returns it without keys (payload <= 8 bytes, any length)
+fn decoded_v5_field<'a>(buf: &'a [u8; 8]) -> EF<'a> {
+    let n: usize = kani::any();
+    kani::assume(n <= 8);
+    match kani::any::<u8>() {
+        0 => EF::UniqueIdentifier(Cow::Borrowed(&buf[..n])),
+        1 => EF::NtsCookie(Cow::Borrowed(&buf[..n])),
+        2 => EF::NtsCookiePlaceholder { cookie_length: n as u16 },
+        3 => EF::ReferenceIdRequest(crate::packet::verif::any_refid_request()),
+        4 => EF::ReferenceIdResponse(crate::packet::v5::extension_fields::ReferenceIdResponse::decode(&buf[..n])),
+        5 => EF::DraftIdentification(Cow::Borrowed(DRAFT_VERSION)),
+        _ => {
+            let t: u16 = kani::any();
+            kani::assume(!matches!(t, 0x104 | 0x204 | 0x304 | 0x404 | 0xF5FF | 0xF503 | 0xF504));
+            EF::Unknown { type_id: t, data: Cow::Borrowed(&buf[..n]) }
+        }
+    }
+}
+/// NTPv5 time answer to an accepted request (the mandatory draft identification + <= 2 more
+/// fields, reference-id windows up to 16 bytes) fits a request-sized buffer, is padded to exactly
+/// the request's size, and the padding arithmetic (`desired - written >= 4`) never underflows.
+#[kani::proof]
+#[kani::unwind(34)]
+#[kani::stub(crate::system::TimeSnapshot::root_dispersion, root_dispersion_uf)]
+#[kani::stub(crate::packet::v5::NtpServerCookie::new_random, server_cookie_stub)]
+fn c17_tb_v5_time_response_fits_request() {
+    let bufs: [[u8; 8]; 2] = kani::any();
+    let nf: usize = kani::any();
+    kani::assume(nf <= 2);
+    let mut untrusted = vec![EF::DraftIdentification(Cow::Borrowed(DRAFT_VERSION))];
+    let mut request_len = 48 + 28;
+    for i in 0..nf {
+        let f = decoded_v5_field(&bufs[i]);
+        if let EF::ReferenceIdRequest(r) = &f {
+            kani::assume(r.payload_len() <= 16 && r.payload_len() % 4 == 0);
+        }
+        request_len += crate::packet::verif::spec_wire(&f);
+        // the draft id may sit anywhere in the request
+        if kani::any() {
+            untrusted.insert(0, f);
+        } else {
+            untrusted.push(f);
+        }
+    }
+    let input = NtpPacket {
+        header: NtpHeader::V5(any_header_v5()),
+        efdata: crate::packet::extension_fields::ExtensionFieldData { authenticated: vec![], encrypted: vec![], untrusted },
+        mac: None,
+    };
+    let info = any_server_info(false);
+    let d = crate::packet::verif::raw(info.time_snapshot.root_delay);
+    kani::assume(d >= 0);
+    kani::assume(crate::packet::verif::raw(rd_value()) >= 0);
+    let _ = pick_server_cookie();
+    let response = NtpPacket::timestamp_response(info, input, any_ts(), &VClock(any_ts()));
+    let mut out = [0u8; 160];
+    let mut cur = std::io::Cursor::new(&mut out[..request_len]);
+    let res = response.serialize(&mut cur, &crate::packet::NoCipher, Some(request_len));
+    assert!(res.is_ok(), "C17: the answer fits a request-sized buffer");
+    assert!(cur.position() as usize == request_len, "NTPv5 answers are padded to the request's size");
+    kani::cover!(nf == 2 && request_len == 48 + 28 + 24, "reachable");
+}
+
+// ================================================================ C23 / C22: header decoder is total
+
+/// Spec of the accepted set, written from the draft's header layout: length >= 48, version 5,
+/// mode 3 or 4, timescale 0..=3, flag bits: first byte 0, only the low three bits of the second.
+fn v5_header_acceptable(d: &[u8]) -> bool {
+    d.len() >= 48
+        && (d[0] >> 3) & 7 == 5
+        && (d[0] & 7 == 3 || d[0] & 7 == 4)
+        && d[12] <= 3
+        && d[14] == 0
+        && d[15] & 0xF8 == 0
+}
+
+/// no panic + termination for every 48-byte input (complete: loop-free) and every shorter length;
+/// Ok <=> the bytes satisfy the layout constraints; consumed size == 48; fields equal their bytes.
+#[kani::proof]
+fn c23_p_v5_header_deserialize_total() {
+    let data: [u8; 48] = kani::any();
+    let len: usize = kani::any();
+    kani::assume(len <= 48);
+    let d = &data[..len];
+    match NtpHeaderV5::deserialize(d) {
+        Ok((h, n)) => {
+            assert!(v5_header_acceptable(d));
+            assert!(n == 48);
+            assert!(h.stratum == d[1] && h.poll.as_byte() == d[2] && h.precision == d[3] as i8);
+            assert!(h.era.0 == d[13]);
+            assert!(h.server_cookie.0[..] == d[16..24] && h.client_cookie.0[..] == d[24..32]);
+            assert!(h.receive_timestamp.to_bits()[..] == d[32..40]);
+            assert!(h.transmit_timestamp.to_bits()[..] == d[40..48]);
+            assert!(h.mode.to_bits() == d[0] & 7 && h.timescale.to_bits() == d[12]);
+            // leap: the wire value 3 reads Unsynchronized; the synchronized flag then overrides
+            assert!(h.flags.synchronized == (d[15] & 1 != 0));
+            assert!(h.flags.synchronized || h.leap == NtpLeapIndicator::Unsynchronized);
+            assert!(!h.flags.synchronized || h.leap != NtpLeapIndicator::Unsynchronized);
+        }
+        Err(_) => assert!(!v5_header_acceptable(d)),
+    }
+    kani::cover!(len == 48 && NtpHeaderV5::deserialize(d).is_ok(), "accepting path reachable");
+    kani::cover!(len == 47, "short input reachable");
+}
+/// same contract for inputs longer than the header (extra bytes are ignored): bounded 49..=64.
+#[kani::proof]
+fn c23_b_v5_header_deserialize_longer() {
+    let data: [u8; 64] = kani::any();
+    let len: usize = kani::any();
+    kani::assume(len >= 48 && len <= 64);
+    let d = &data[..len];
+    let a = NtpHeaderV5::deserialize(d);
+    let b = NtpHeaderV5::deserialize(&data[..48]);
+    match (a, b) {
+        (Ok((h, n)), Ok((h2, n2))) => assert!(h == h2 && n == 48 && n2 == 48),
+        (Err(_), Err(_)) => {}
+        _ => panic!("trailing bytes changed the header verdict"),
+    }
+    kani::cover!(len == 64, "reachable");
+}
+#[kani::proof]
+fn c23_canary_v5_header_accepts_any_mode() {
+    let data: [u8; 48] = kani::any();
+    kani::assume((data[0] >> 3) & 7 == 5 && data[12] <= 3 && data[14] == 0 && data[15] & 0xF8 == 0);
+    assert!(NtpHeaderV5::deserialize(&data).is_ok());
+}
+
+// ================================================================ C24: header round trip
+
+/// decode(encode(decode(b))) == decode(b) and encode never fails/panics on a decoded header
+/// (to_bits_time32 asserts a non-negative duration: holds for every decoded value); the second
+/// encoding equals the first (stable bytes). All 48-byte inputs.
+#[kani::proof]
+fn c24_p_v5_header_roundtrip() {
+    let data: [u8; 48] = kani::any();
+    if let Ok((h, _)) = NtpHeaderV5::deserialize(&data) {
+        let mut out = [0u8; 48];
+        let mut cur = std::io::Cursor::new(&mut out[..]);
+        assert!(h.serialize(&mut cur).is_ok());
+        assert!(cur.position() == 48);
+        let (h2, _) = NtpHeaderV5::deserialize(&out).unwrap();
+        assert!(h2 == h);
+        let mut out2 = [0u8; 48];
+        let mut cur2 = std::io::Cursor::new(&mut out2[..]);
+        assert!(h2.serialize(&mut cur2).is_ok());
+        assert!(out2 == out);
+        // what normalisation may change: only the two leap bits of byte 0
+        assert!(out[1..] == data[1..] && (out[0] & 0x3F) == (data[0] & 0x3F));
+    }
+    kani::cover!(NtpHeaderV5::deserialize(&data).is_ok(), "accepting path reachable");
+}
+/// encode(decode(.)) of every header VALUE with non-negative durations that fit the wire format
+/// and a leap value consistent with the flags returns the same value.
+#[kani::proof]
+fn c24_p_v5_header_value_roundtrip() {
+    let h = any_header_v5();
+    let rd = i64::from_be_bytes((NtpTimestamp::from_bits([0; 8]) + h.root_delay).to_bits());
+    let rp = i64::from_be_bytes((NtpTimestamp::from_bits([0; 8]) + h.root_dispersion).to_bits());
+    kani::assume(rd >= 0 && rd < (1i64 << 36) && rd & 0xF == 0);
+    kani::assume(rp >= 0 && rp < (1i64 << 36) && rp & 0xF == 0);
+    kani::assume(h == h.fix_leap_indicator());
+    let mut out = [0u8; 48];
+    let mut cur = std::io::Cursor::new(&mut out[..]);
+    assert!(h.serialize(&mut cur).is_ok());
+    let (h2, n) = NtpHeaderV5::deserialize(&out).unwrap();
+    assert!(n == 48 && h2 == h);
+    kani::cover!(h.flags.synchronized && h.leap == NtpLeapIndicator::Leap59, "reachable");
+}
+#[kani::proof]
+fn c24_canary_v5_header_bytes_identical() {
+    let data: [u8; 48] = kani::any();
+    if let Ok((h, _)) = NtpHeaderV5::deserialize(&data) {
+        let mut out = [0u8; 48];
+        let mut cur = std::io::Cursor::new(&mut out[..]);
+        let _ = h.serialize(&mut cur);
+        assert!(out == data); // false: leap bits are normalised against the synchronized flag
+    }
+}
 
 #[cfg(all(kani, test))]
 mod replay {
